@@ -5,15 +5,42 @@ From LV Require Import Extract.PlaneCodec.
 Require Import ExtrOcamlBasic.
 
 (* run the chain; returns the reports of the completed steps and the final wavefront or the error *)
-Fixpoint chain (L : nat) (w : pwf (GRS L)) (ps : list (result (plane (GRS L)))) (acc : list Z) (n : Z)
+Fixpoint chain (L : nat) (w : pwf (GRS L)) (ps : list (result (celem (GRS L)))) (acc : list Z) (n : Z)
   : Z * list Z * result (pwf (GRS L)) :=
   match ps with
   | [] => (n, acc, Ok w)
   | rp :: r =>
-      match rbind rp (fun P => plane_multiply P w) with
+      match rbind rp (fun e => elem_multiply e w) with
       | Ok w' => chain L w' r (acc ++ ewf L w') (n + 1)
       | Err e => (n, acc, Err e)
       end
+  end.
+
+(* op 5: a history on ONE plane object.  Actions: 0 lam src - multiply (src 0: a fresh Wavefront(lam); src 1: the
+   result of the previous multiply) and report the result; 1 - plane.amplitude = value; 2 - plane.opd = value;
+   3 - plane.mask[...] = value in place (slices kept).  Every multiply sees the plane's CURRENT attributes. *)
+Inductive paction (L : nat) :=
+| AMul (lam : Qc) (src : bool) | ASetAmp (a : aattr (GRS L)) | ASetOpd (o : oattr) | ASetMask (m : mraw (GRS L)).
+Arguments AMul {L}. Arguments ASetAmp {L}. Arguments ASetOpd {L}. Arguments ASetMask {L}.
+Definition p_action (L : nat) : parser (paction L) :=
+  t <- pZ ;;
+  if t =? 0 then (lam <- pQ ;; b <- pbool ;; pret (AMul lam b))
+  else if t =? 1 then (a <- p_amp L ;; pret (ASetAmp a))
+  else if t =? 2 then (o <- p_opd ;; pret (ASetOpd o))
+  else if t =? 3 then (m <- p_mraw L ;; pret (ASetMask m))
+  else pfail.
+Fixpoint phist (L : nat) (P : plane (GRS L)) (last : option (pwf (GRS L))) (acts : list (paction L)) : list Z :=
+  match acts with
+  | [] => []
+  | AMul lam src :: r =>
+      let w0 := match src, last with true, Some w => w | _, _ => pwf_init lam PixNone None [] end in
+      match plane_multiply P w0 with
+      | Ok w' => 0 :: ewf L w' ++ phist L P (Some w') r
+      | Err e => 1 :: errcode e :: phist L P last r
+      end
+  | ASetAmp a :: r => phist L (set_amp P a) last r
+  | ASetOpd o :: r => phist L (set_opd P o) last r
+  | ASetMask m :: r => phist L (set_mask_inplace P (init_mask (gnz L) (pl_amp P) m)) last r
   end.
 
 Definition run (inp : list Z) : list Z :=
@@ -35,6 +62,11 @@ Definition run (inp : list Z) : list Z :=
                          | Some (out, wt) => 1 :: eresult (earr L) (pwf_insert w out wt)
                          end
           end
+      | None => emalformed end
+    else if op =? 5 then
+      match pall (k <- pZ ;; rp <- p_plane0 L k ;; acts <- plist (p_action L) ;; pret (rp, acts)) rest with
+      | Some (Ok P, acts) => 0 :: phist L P None acts
+      | Some (Err e, _) => [1; errcode e]
       | None => emalformed end
     else if op =? 3 then   (* explicit list of fields: Wavefront.field, .intensity, .insert(out, weight) *)
       match pall (n <- pZ ;; m <- pZ ;; fs <- plist (pfield L) ;; out <- parr L ;; wt <- pK L ;;
